@@ -34,6 +34,10 @@ EXTRA_STATIC = [
     'struct { unsigned long a : 50; unsigned long b : 14; } es55 = { 0x3ffffffffffff, 0x3fff };', 'struct { char c; int bf : 5; } es56 = { 1, -16 };', 'struct { int : 3; int v : 4; } es57 = { 7 };',
     'unsigned short es58[3] = u"abc";', 'unsigned es61[2] = U"xy";', "__typeof__(L'a') es62[1] = L\"z\";", 'struct { unsigned short tag[4]; int after; } es63 = { u"abcd", 7 };', 'char es64[2][3] = { "abc", "de" };',
     'int es59 = { 5 };', 'char *es60 = { "q" };',
+    # designators that pass through anonymous members, followed by positional initialisers
+    'struct { int a; struct { int b, c; }; int d; int e; } es81 = { .b = 1, 2, 3 };', 'struct { int a; struct { int b, c; }; int d; int e; } es82 = { 5, .c = 1, 3 };',
+    'struct { int a; union { int b; char c; }; int d; } es83 = { .c = 1, 2 };', 'struct { struct { struct { int x, y; }; int z; }; int w; } es84 = { .y = 1, 2, 3 };',
+    'struct { int a; struct { int b; struct { int c, d; }; }; int e[2]; } es85 = { .d = 4, 5, 6, .c = 3 };', 'struct { union { struct { char p, q; }; short s; }; char t; } es86[2] = { { .q = 1, 2 }, { .s = 3, 4 } };',
 ] + [t.replace('E9', U8('\u00e9')).replace('EU', U8('\u20ac')).replace('EM', U8('\U0001f600')) for t in [
     # an escape followed by multi-byte source characters inside one literal token (the bytes after the escape are still UTF-8)
     'char es70[] = "\\x41E9";', 'char es71[8] = "\\101EUx";', 'unsigned short es72[] = u"\\x41E9EU";', 'unsigned es73[] = U"\\x41EME9";', 'struct { char s[8]; int k; } es74 = { "\\1E9", 2 };',
